@@ -81,8 +81,10 @@ func (s *Seq) opAwait(op *Op) {
 	if len(p1) > 0 {
 		s.fail("async", "not-flushed:"+op.Mode, "no call was issued for %v of simulated time (%s), yet the accepted writes of lids %v are still not on disk", d, why, p1)
 	}
-	if op.Mode == "timeout" {
-		s.smallDirty = false // every collection has its own flusher with the same timeout
+	if op.Mode == "timeout" && msDur(s.smallTimeoutMs) <= timeout {
+		// every collection has its own flusher; the second collection keeps the
+		// timeout it was created with when a Create switched the first one's
+		s.smallDirty = false
 	}
 	s.quiescent = !s.smallDirty
 	s.checkLayout("await-" + op.Mode)
